@@ -267,6 +267,10 @@ class Evaluator:
                  attr_models=None, facts=None, cond_hook=None, inline=True, call_hook=None, assume_false=()):
         self.P = project
         self.models = models or {}  # callee qualname or bare name -> fn(ev, args, kwargs, node)
+        for k in self.models:
+            # a model for a package function that no longer exists would silently not apply: no verdict instead
+            if ":" in k and not k.startswith("pkg:") and k not in project.functions and k not in project.classes:
+                raise AnalysisError(f"anchor function {k} (modelled by a rule) not found in the tree")
         self.method_models = method_models or {}  # (kind, method) or method -> fn(ev, recv, args, kwargs, node)
         self.attr_models = attr_models or {}  # (kind, attr) -> fn(ev, recv, node)
         self.facts = facts or {}  # symbol name -> 'pos' | 'nonneg'
